@@ -18,12 +18,28 @@
 #include "Db/Db.hpp"
 #include "Db/DbGrid.hpp"
 #include "Basic/VectorHelper.hpp"
+#include "Estimation/CalcGlobal.hpp"
+#include "Variogram/Vario.hpp"
+#include "Variogram/VarioParam.hpp"
+#include "Variogram/DirParam.hpp"
+#include "Enum/ECalcVario.hpp"
+#include "Enum/EStatOption.hpp"
+#include "Stats/Classical.hpp"
+#include "Stats/PCA.hpp"
+#include "Calculators/CalcMigrate.hpp"
+#include "Anamorphosis/AnamHermite.hpp"
+#include "Anamorphosis/AnamEmpirical.hpp"
+#include "Matrix/Table.hpp"
+#include "Matrix/MatrixSparse.hpp"
+#include "Matrix/MatrixRectangular.hpp"
+#include "Matrix/MatrixSquareSymmetric.hpp"
+#include "Simulation/CalcSimuTurningBands.hpp"
 
 using namespace vf;
 using namespace vfkrig;
 
 // ------------------------------------------------------------------ small helpers -------
-static bool na(double v) { return vfkrig::isNA(v); }
+static bool na(double v) { return v > 1e29; } // TEST; a NaN is not "undefined", it is a wrong number
 static void dbgMsg(const char* s) { std::string t(s); while (!t.empty() && t.back() == '\n') t.pop_back(); diag("LIB: " + t); }
 static void debugHook()
 {
@@ -33,6 +49,7 @@ static void debugHook()
 // plain differential comparison (DESIGN §3): relative 1e-10, absolute floor 1e-12 * scale
 static bool same(double a, double b, double scale, double rel = 1e-10)
 {
+  if (std::isnan(a) || std::isnan(b)) return std::isnan(a) && std::isnan(b); // the same degenerate ratio on both sides
   if (na(a) || na(b)) return na(a) && na(b);
   return std::fabs(a - b) <= rel * std::max(std::fabs(a), std::fabs(b)) + 1e-12 * scale;
 }
@@ -125,7 +142,7 @@ struct KM
 struct KMOpt
 {
   GenOpt g;
-  int naCoordPct = 25;   // cases with undefined coordinates
+  int naCoordPct = 0;    // cases with undefined coordinates (dedicated sub-properties: several operations crash)
   int allNaPct = 25;     // cases with wholly undefined samples
   int tselPct = 50;      // cases with a selection on the targets
   int ballPct = 0;
@@ -330,10 +347,14 @@ struct Gate
     return &cache[k2];
   }
   // kind 0: estimate, 1: variance-like quantity (a and b are variances)
+  // returns 0 equal within the kappa-scaled tolerance, 1 different, 2 inconclusive (singular / ill-conditioned /
+  // ambiguous neighbourhood), 3 one side undefined or NaN although the system is regular
   int judge(int k2, int tv, int kind, double a, double b)
   {
     Sys* S = sys(k2);
     if (!S || !S->solved || !(S->kappa <= kKappaMax)) return 2;
+    if (na(a) != na(b) || std::isnan(a) || std::isnan(b)) return 3;
+    if (na(a)) return 0;
     double ek = epsK(S->kappa, eta);
     LD tol = (kind == 0) ? (LD)ek * S->scaleE[(size_t)tv] + floorE(*S, eta) : (LD)ek * S->scaleV[(size_t)tv] + floorV(*S, eta, tv);
     return (fabsl((LD)a - (LD)b) <= 4 * tol) ? 0 : 1;
@@ -382,12 +403,13 @@ static uint64_t sigKM(const KM& c)
 }
 
 // target side of a Db-to-Db calculation: pre-existing cells untouched, new columns TEST at masked targets
-static bool targetSide(const KM& c, const Snap& before, const Db* dbout, const std::string& V, Ctx& ctx)
+static bool targetSide(const KM& c, const Snap& before, const Db* dbout, const std::string& P, const std::string& V, Ctx& ctx)
 {
+  auto key = [&](const char* w) { return P.empty() ? V + ":" + w : P + ":" + w + ":" + V; };
   std::string what;
   if (!snapUnchanged(before, dbout, what))
   {
-    ctx.fail(V + ":target-cells", "pre-existing cells of the target Db changed: " + what);
+    ctx.fail(key("target-cells"), "pre-existing cells of the target Db changed: " + what);
     return false;
   }
   for (int ic = 0; ic < dbout->getColumnNumber(); ic++)
@@ -397,7 +419,7 @@ static bool targetSide(const KM& c, const Snap& before, const Db* dbout, const s
     for (int t = 0; t < dbout->getSampleNumber(); t++)
       if (!c.tactive(t) && !na(dbout->getValueByColIdx(t, ic)))
       {
-        ctx.fail(V + ":masked-target-written", fmt("masked target %d holds %.12g in the new column '%s' (must keep TEST)", t, dbout->getValueByColIdx(t, ic), nm.c_str()));
+        ctx.fail(key("masked-target-written"), fmt("masked target %d holds %.12g in the new column '%s' (must keep TEST)", t, dbout->getValueByColIdx(t, ic), nm.c_str()));
         return false;
       }
   }
@@ -428,13 +450,13 @@ static void runKrig(const KM& c, Ctx& ctx)
   KOut o1 = runKriging(m, w1, ctx, wantVarz);
   std::string what;
   if (!snapUnchanged(inBefore, w1.dbin.get(), what)) { ctx.fail(V + ":data-cells", "cells of the data Db changed: " + what); return; }
-  if (!targetSide(c, outBefore, w1.dbout.get(), V, ctx)) return;
+  if (!targetSide(c, outBefore, w1.dbout.get(), "", V, ctx)) return;
 
   if (kd.empty() || kt.empty())
   {
     // nothing remains: every result must be undefined (or the call is refused)
     ctx.label(kd.empty() ? "reduced:no-data" : "reduced:no-target");
-    if (o1.err == 0 && o1.cols)
+    if (o1.err == 0 && o1.cols && k.order >= 0)
       for (int t = 0; t < nt; t++)
         for (int v = 0; v < nv; v++)
           if (!na(o1.estim[(size_t)(t * nv + v)]))
@@ -478,36 +500,32 @@ static void runKrig(const KM& c, Ctx& ctx)
     {
       double e1 = o1.estim[(size_t)(t * nv + v)], e2 = o2.estim[(size_t)(t2 * nv + v)];
       double s1 = o1.stdev[(size_t)(t * nv + v)], s2 = o2.stdev[(size_t)(t2 * nv + v)];
-      if (na(e1) != na(e2) || na(s1) != na(s2))
-      {
-        ctx.fail(V + ":defined-status", fmt("target %d var %d: masked Db gives estim %.12g stdev %.12g, reduced Db gives %.12g / %.12g", t, v, e1, s1, e2, s2));
-        return;
-      }
-      if (na(e1)) continue;
+      int kq = k.block ? t : (int)q;
+      if (na(e1) && na(e2) && na(s1) && na(s2)) continue;
       nCmp++;
-      int verdict = 0;
-      if (!same(e1, e2, scale)) verdict = std::max(verdict, gate.judge(k.block ? t : (int)q, v, 0, e1, e2));
-      if (verdict == 1)
+      int verdict = same(e1, e2, scale) ? 0 : gate.judge(kq, v, 0, e1, e2);
+      if (verdict == 1 || verdict == 3)
       {
-        ctx.fail(V + ":estim", fmt("target %d var %d: estimate %.15g with the masked Db, %.15g after removing the %d masked/undefined samples", t, v, e1, e2, c.nRemoved()));
+        ctx.fail(V + (verdict == 3 ? ":defined-status" : ":estim"), fmt("target %d var %d: estimate %.15g with the masked Db, %.15g after removing the %d masked/undefined samples", t, v, e1, e2, c.nRemoved()));
         return;
       }
-      int vs = 0;
-      if (!na(s1) && !same(s1 * s1, s2 * s2, std::max(s1 * s1, s2 * s2), 1e-9)) vs = gate.judge(k.block ? t : (int)q, v, 1, s1 * s1, s2 * s2);
-      if (vs == 1)
+      double q1 = na(s1) ? s1 : s1 * s1, q2 = na(s2) ? s2 : s2 * s2;
+      int vs = same(q1, q2, std::max(q1, q2), 1e-9) ? 0 : gate.judge(kq, v, 1, q1, q2);
+      if (vs == 1 || vs == 3)
       {
-        ctx.fail(V + ":stdev", fmt("target %d var %d: stdev %.15g with the masked Db, %.15g with the reduced Db", t, v, s1, s2));
+        ctx.fail(V + (vs == 3 ? ":defined-status" : ":stdev"), fmt("target %d var %d: stdev %.15g with the masked Db, %.15g with the reduced Db", t, v, s1, s2));
         return;
       }
       if (wantVarz)
       {
         double z1 = o1.varz[(size_t)(t * nv + v)], z2 = o2.varz[(size_t)(t2 * nv + v)];
-        if (na(z1) != na(z2)) { ctx.fail(V + ":defined-status", fmt("target %d var %d: varz %.12g vs %.12g", t, v, z1, z2)); return; }
-        if (!na(z1) && !same(z1, z2, std::max(std::fabs(z1), std::fabs(z2)), 1e-9) && gate.judge(k.block ? t : (int)q, v, 1, z1, z2) == 1)
+        int vz = same(z1, z2, std::max(std::fabs(z1), std::fabs(z2)), 1e-9) ? 0 : gate.judge(kq, v, 1, z1, z2);
+        if (vz == 1 || vz == 3)
         {
-          ctx.fail(V + ":varz", fmt("target %d var %d: varz %.15g with the masked Db, %.15g with the reduced Db", t, v, z1, z2));
+          ctx.fail(V + (vz == 3 ? ":defined-status" : ":varz"), fmt("target %d var %d: varz %.15g with the masked Db, %.15g with the reduced Db", t, v, z1, z2));
           return;
         }
+        if (vz == 2) vs = 2;
       }
       if (verdict == 2 || vs == 2) nInc++;
     }
@@ -556,5 +574,1333 @@ VERIF_SUB(krig_unique, KM, genKrigUnique, runKrig);
 VERIF_SUB(krig_moving, KM, genKrigMoving, runKrig);
 VERIF_SUB(krig_ball, KM, genKrigBall, runKrig);
 VERIF_SUB(krig_block, KM, genKrigBlock, runKrig);
+// undefined coordinates in the data: unique neighbourhood, or moving neighbourhood without angular sectors (with
+// sectors the sector index of such a sample is out of range: heap overflow in NeighMoving::_movingSelect, kept
+// as a replay-only case)
+static KM genKrigNaCoord()
+{
+  KMOpt o;
+  o.g.movingPct = 40;
+  o.g.sectorPct = 0;
+  o.naCoordPct = 100;
+  o.allNaPct = 10;
+  return genKM(o);
+}
+VERIF_SUB(krig_nacoord, KM, genKrigNaCoord, runKrig);
+
+// ---------------------------------------------------------------------------- new columns
+typedef std::vector<std::pair<std::string, std::vector<double>>> Cols;
+static Cols newCols(const Snap& before, const Db* db)
+{
+  Cols c;
+  for (int ic = 0; ic < db->getColumnNumber(); ic++)
+  {
+    std::string nm = db->getNameByColIdx(ic);
+    if (inSnap(before, nm)) continue;
+    VectorDouble v = db->getColumnByColIdx(ic, false, false);
+    c.push_back({nm, std::vector<double>(v.begin(), v.end())});
+  }
+  return c;
+}
+static double zScale(const KCase& r)
+{
+  double s = 0;
+  for (double v : r.z)
+    if (!na(v)) s = std::max(s, std::fabs(v));
+  return s;
+}
+static double sillScale(const KCase& r)
+{
+  double s = 0;
+  for (int v = 0; v < r.nvar; v++)
+  {
+    double t = 0;
+    for (auto& st : r.st) t += st.sill[(size_t)(v * r.nvar + v)];
+    s = std::max(s, t);
+  }
+  return std::sqrt(s);
+}
+
+// ---------------------------------------------------------------------------- cross-validation
+// data = targets.  Reduced side: the kept rows.  Rows of the masked Db which are masked keep TEST.
+static void runXvalid(const KM& c0, Ctx& ctx)
+{
+  KM c = c0;
+  c.tsel.clear();
+  c.pre.clear();
+  c.k.block = 0;
+  c.k.targ = c.k.data; // only for the sizes used by the world builder
+  c.k.ftar = c.k.fdat;
+  c.ball = 0;
+  labelKM(c, ctx);
+  ctx.sig = sigKM(c);
+  debugHook();
+  const KCase& k = c.k;
+  KCase m = maskedCase(c);
+  std::vector<int> kd, ktDummy;
+  KCase r = reducedCase(c, kd, ktDummy);
+  r.targ = r.data;
+  r.ftar = r.fdat;
+  World w1, w2;
+  if (!buildWorld(m, w1, ctx)) return;
+  int nv = k.nvar;
+  std::string V = std::string("xvalid-") + (k.moving ? "moving" : "unique") + (c.op & 1 ? "-kfold" : "") + ":" + maskKind(c);
+  // k-fold: codes
+  bool kfold = (c.op & 1) != 0;
+  auto addCode = [&](Db* db, const std::vector<int>& rows) {
+    VectorDouble code((size_t)rows.size());
+    for (size_t i = 0; i < rows.size(); i++) code[i] = (double)((rows[i] * 7 + c.seed) % 3);
+    db->addColumns(code, "code", ELoc::C, 0);
+  };
+  std::vector<int> all((size_t)c.n());
+  for (int i = 0; i < c.n(); i++) all[(size_t)i] = i;
+  if (kfold) addCode(w1.dbin.get(), all);
+  Snap before1 = snapOf(w1.dbin.get());
+  ctx.at("xvalid:" + V);
+  int e1 = xvalid(w1.dbin.get(), w1.model.get(), w1.neigh.get(), kfold, 1, 1, 0);
+  std::string what;
+  if (!snapUnchanged(before1, w1.dbin.get(), what)) { ctx.fail(V + ":data-cells", "pre-existing cells changed: " + what); return; }
+  Cols c1 = newCols(before1, w1.dbin.get());
+  for (auto& col : c1)
+    for (int i = 0; i < c.n(); i++)
+      if (!k.active(i) && !na(col.second[(size_t)i]))
+      {
+        ctx.fail(V + ":masked-target-written", fmt("masked sample %d holds %.12g in the new column '%s'", i, col.second[(size_t)i], col.first.c_str()));
+        return;
+      }
+  if (kd.empty()) { ctx.label("reduced:no-data"); return; }
+  if (!buildWorld(r, w2, ctx)) return;
+  if (kfold) addCode(w2.dbin.get(), kd);
+  Snap before2 = snapOf(w2.dbin.get());
+  int e2 = xvalid(w2.dbin.get(), w2.model.get(), w2.neigh.get(), kfold, 1, 1, 0);
+  if ((e1 != 0) != (e2 != 0)) { ctx.fail(V + ":error-status", fmt("xvalid() returns %d with the masked Db and %d with the reduced Db", e1, e2)); return; }
+  if (e1 != 0) { ctx.label("both-refused"); return; }
+  Cols c2 = newCols(before2, w2.dbin.get());
+  if (c1.size() != c2.size()) { ctx.fail(V + ":columns", fmt("%d new columns with the masked Db, %d with the reduced Db", (int)c1.size(), (int)c2.size())); return; }
+  double zs = zScale(r);
+  int nCmp = 0, nInc = 0;
+  for (size_t q = 0; q < kd.size(); q++)
+  {
+    int i = kd[q];
+    for (size_t j = 0; j < c1.size(); j++)
+    {
+      if (c1[j].first != c2[j].first) { ctx.fail(V + ":columns", "new columns differ: " + c1[j].first + " / " + c2[j].first); return; }
+      double a = c1[j].second[(size_t)i], b = c2[j].second[q];
+      if (na(a) && na(b)) continue;
+      nCmp++;
+      bool isStd = c1[j].first.find("stderr") != std::string::npos;
+      if (same(a, b, isStd ? 1. : zs, 1e-9)) continue;
+      // kappa gate: the system of this sample (the sample itself leaves the data; k-fold is not modelled)
+      if (kfold) { nInc++; continue; }
+      KCase rq = r;
+      for (int v = 0; v < nv; v++) rq.z[q * (size_t)nv + (size_t)v] = NA;
+      rq.targ = Points();
+      rq.targ.ndim = r.ndim;
+      rq.targ.push(r.data.p((int)q));
+      rq.ftar.clear();
+      for (int f = 0; f < r.nfex; f++) rq.ftar.push_back(r.fdat[q * (size_t)r.nfex + (size_t)f]);
+      World wq;
+      Ctx dummy;
+      if (!buildWorld(rq, wq, dummy)) { nInc++; continue; }
+      Gate gate(rq, wq);
+      Sys* S = gate.sys(0);
+      if (!S || !S->solved || !(S->kappa <= kKappaMax)) { nInc++; continue; }
+      if (na(a) != na(b) || std::isnan(a) || std::isnan(b))
+      {
+        ctx.fail(V + ":defined-status", fmt("sample %d, %s: %.12g with the masked Db, %.12g with the reduced Db (regular system, kappa %.3g)", i, c1[j].first.c_str(), a, b, S->kappa));
+        return;
+      }
+      // esterr = Z* - Z ; stderr = (Z* - Z) / S : both inherit the relative accuracy of the solve
+      double ek = epsK(S->kappa, gate.eta);
+      int tv = 0;
+      for (int v = 0; v < nv; v++)
+        if (c1[j].first.find("z" + std::to_string(v + 1)) != std::string::npos) tv = v;
+      double tol = 8 * ((double)((LD)ek * S->scaleE[(size_t)tv] + floorE(*S, gate.eta)));
+      double sd = std::sqrt(std::max(1e-300, (double)S->var[(size_t)tv]));
+      if (isStd) tol = tol / sd + 8 * ek * std::fabs(a) * (double)(S->scaleV[(size_t)tv] / std::max((LD)1e-300, S->var[(size_t)tv]));
+      if (std::fabs(a - b) > tol)
+      {
+        ctx.fail(V + (isStd ? ":stderr" : ":esterr"), fmt("sample %d, %s: %.15g with the masked Db, %.15g after removing the %d masked/undefined samples (kappa %.3g)", i, c1[j].first.c_str(), a, b, c.nRemoved(), S->kappa));
+        return;
+      }
+    }
+  }
+  if (nInc > 0 && nInc == nCmp) ctx.inconclusive("ill-conditioned");
+  if (nInc > 0) ctx.label("some-ill-conditioned");
+  ctx.nontrivial(nCmp > 0 && c.nRemoved() > 0 && c.nRemoved() < c.n());
+}
+static KM genXvalid()
+{
+  KMOpt o;
+  o.g.movingPct = 50;
+  o.g.nMax = 30;
+  o.tselPct = 0;
+  KM c = genKM(o);
+  c.op = G::pct(20) ? 1 : 0;
+  return c;
+}
+VERIF_SUB(xvalid, KM, genXvalid, runXvalid);
+
+// ---------------------------------------------------------------------------- conditional simulation
+static void runSimtub(const KM& c, Ctx& ctx)
+{
+  labelKM(c, ctx);
+  ctx.sig = sigKM(c);
+  debugHook();
+  World w1, w2;
+  KCase m, r;
+  std::vector<int> kd, kt;
+  if (!buildBoth(c, w1, w2, m, r, kd, kt, ctx)) return;
+  const KCase& k = c.k;
+  bool nug = false;
+  for (auto& s : k.st) nug = nug || s.type == T_NUGGET;
+  std::string V = maskKind(c) + ":" + (k.moving ? "moving" : "unique") + (nug ? "-nugget" : "");
+  // no usable datum at all (empty selection ...): the conditional simulation allocates 4 GB and aborts
+  // (replay-only finding simtub-no-active-data.case); not generated as it would end the search
+  if (kd.empty()) { ctx.label("skipped:simtub-no-active-data"); return; }
+  Snap in1 = snapOf(w1.dbin.get()), out1 = snapOf(w1.dbout.get());
+  ctx.at("simtub:" + V);
+  int e1 = simtub(w1.dbin.get(), w1.dbout.get(), w1.model.get(), w1.neigh.get(), c.nbsimu, c.seed, c.nbtuba);
+  std::string what;
+  if (!snapUnchanged(in1, w1.dbin.get(), what)) { ctx.fail("simtub:data-cells:" + V, "cells of the data Db changed: " + what); return; }
+  if (kt.empty()) { ctx.label("reduced:no-target"); targetSide(c, out1, w1.dbout.get(), "simtub", V, ctx); return; }
+  Snap out2 = snapOf(w2.dbout.get());
+  resetGlobals(k.ndim);
+  int e2 = simtub(w2.dbin.get(), w2.dbout.get(), w2.model.get(), w2.neigh.get(), c.nbsimu, c.seed, c.nbtuba);
+  if ((e1 != 0) != (e2 != 0)) { ctx.fail("simtub:error-status:" + V, fmt("simtub() returns %d with the masked Db and %d with the reduced Db", e1, e2)); return; }
+  if (e1 != 0) { ctx.label("both-refused"); return; }
+  Cols c1 = newCols(out1, w1.dbout.get()), c2 = newCols(out2, w2.dbout.get());
+  if (c1.size() != c2.size() || (int)c1.size() != c.nbsimu * k.nvar)
+  {
+    ctx.fail("simtub:columns:" + V, fmt("%d new columns with the masked Db, %d with the reduced Db, %d expected", (int)c1.size(), (int)c2.size(), c.nbsimu * k.nvar));
+    return;
+  }
+  Gate gate(r, w2);
+  double sc = zScale(r) + 6 * sillScale(r);
+  int nCmp = 0, nInc = 0;
+  bool matter = false;
+  for (size_t q = 0; q < kt.size(); q++)
+  {
+    int t = kt[q];
+    for (size_t j = 0; j < c1.size(); j++)
+    {
+      double a = c1[j].second[(size_t)t], b = c2[j].second[q];
+      if (na(a) && na(b)) continue;
+      nCmp++;
+      if (same(a, b, sc, 1e-9)) continue;
+      Sys* S = gate.sys((int)q);
+      if (!S || !S->solved || !(S->kappa <= kKappaMax)) { nInc++; continue; }
+      if (na(a) != na(b) || std::isnan(a) || std::isnan(b)) { ctx.fail("simtub:defined-status:" + V, fmt("target %d, %s: %.12g with the masked Db, %.12g with the reduced Db", t, c1[j].first.c_str(), a, b)); return; }
+      double l1 = 0;
+      int tv = (int)(j % (size_t)k.nvar);
+      for (int a_ = 0; a_ < S->N; a_++) l1 += (double)fabsl(S->sol(a_, tv));
+      double tol = 8 * epsK(S->kappa, gate.eta) * (1 + l1) * sc;
+      if (std::fabs(a - b) > tol)
+      {
+        ctx.fail("simtub:value:" + V, fmt("target %d, %s: %.15g with the masked Db, %.15g after removing the %d masked/undefined samples (same seed; kappa %.3g)", t, c1[j].first.c_str(), a, b, c.nRemoved(), S->kappa));
+        return;
+      }
+    }
+    if (!matter)
+      for (int i = 0; i < c.n() && !matter; i++)
+        if (c.removed(i)) matter = wouldMatter(k, r, r.targ.p((int)q), m.data.p(i));
+  }
+  if (!targetSide(c, out1, w1.dbout.get(), "simtub", V, ctx)) return;
+  if (nInc > 0 && nInc == nCmp) ctx.inconclusive("ill-conditioned");
+  ctx.nontrivial(nCmp > 0 && c.nRemoved() > 0 && matter);
+}
+static KM genSimtub()
+{
+  KMOpt o;
+  o.g.intrinsicPct = 0;
+  o.g.nMax = 24;
+  o.g.movingPct = 30;
+  o.g.verrPct = 0;
+  o.g.onDataPct = 10;
+  KM c = genKM(o);
+  // structures the turning bands can simulate
+  for (auto& s : c.k.st)
+    if (s.type != T_NUGGET && s.type != T_EXPONENTIAL && s.type != T_SPHERICAL && s.type != T_GAUSSIAN && s.type != T_CUBIC && s.type != T_MATERN && s.type != T_STABLE)
+      s.type = T_EXPONENTIAL;
+  c.k.flagVarz = 0;
+  return c;
+}
+VERIF_SUB(simtub_cond, KM, genSimtub, runSimtub);
+
+// ---------------------------------------------------------------------------- global estimation
+static void runGlobal(const KM& c0, Ctx& ctx)
+{
+  KM c = c0;
+  c.pre.clear();
+  labelKM(c, ctx);
+  ctx.sig = sigKM(c);
+  debugHook();
+  World w1, w2;
+  KCase m, r;
+  std::vector<int> kd, kt;
+  if (!buildBoth(c, w1, w2, m, r, kd, kt, ctx)) return;
+  const KCase& k = c.k;
+  bool arith = (c.op & 1) != 0;
+  std::string V = std::string(arith ? "global-arith" : "global-krig") + ":" + maskKind(c);
+  int iv = (c.op >> 1) % k.nvar;
+  Snap in1 = snapOf(w1.dbin.get()), out1 = snapOf(w1.dbout.get());
+  auto call = [&](World& w, Global_Result& g) {
+    law_set_random_seed(132421);
+    ctx.at(V);
+    CalcGlobal cg(iv, false);
+    cg.setDbin(w.dbin.get());
+    cg.setDbout(w.dbout.get());
+    cg.setModel(w.model.get());
+    if (arith) cg.setFlagArithmetic(true);
+    else cg.setFlagKriging(true);
+    bool ok = cg.run();
+    if (ok) g = cg.getGRes();
+    return ok;
+  };
+  Global_Result g1, g2;
+  // all data masked: global_kriging dereferences a null right-hand side (KrigingSystem::getRHSC), recorded
+  // as a replay-only finding (a sanitizer abort would end the search)
+  if (!arith && kd.empty()) { ctx.label("skipped:global-krig-no-data"); return; }
+  bool ok1 = call(w1, g1);
+  std::string what;
+  if (!snapUnchanged(in1, w1.dbin.get(), what)) { ctx.fail(V + ":data-cells", "cells of the data Db changed: " + what); return; }
+  if (!snapUnchanged(out1, w1.dbout.get(), what)) { ctx.fail(V + ":target-cells", "cells of the target Db changed: " + what); return; }
+  if (kd.empty() || kt.empty()) { ctx.label("reduced:none"); return; }
+  bool ok2 = call(w2, g2);
+  if (ok1 != ok2) { ctx.fail(V + ":error-status", fmt("run() returns %d with the masked Db and %d with the reduced Db", (int)ok1, (int)ok2)); return; }
+  if (!ok1) { ctx.label("both-refused"); return; }
+  // the reduced Db holds only the usable rows: its counts are the number of usable data / active cells
+  {
+    // np is documented as the number of active data: samples kept by the selection (defined or not)
+    int nact = 0;
+    for (int i = 0; i < c.n(); i++) nact += k.active(i) ? 1 : 0;
+    if (g1.np != nact) { ctx.fail(V + ":np", fmt("number of active data reported %d, the selection keeps %d", g1.np, nact)); return; }
+  }
+  if (g1.ng != g2.ng) { ctx.fail(V + ":ng", fmt("number of discretisation nodes %d / %d", g1.ng, g2.ng)); return; }
+  if (g1.weights.size() != g2.weights.size()) { ctx.fail(V + ":nweights", fmt("%d weights with the masked Db, %d with the reduced Db", (int)g1.weights.size(), (int)g2.weights.size())); return; }
+  double zs = zScale(r), ss = sillScale(r);
+  // kappa of the (unique neighbourhood) system
+  Gate gate(r, w2);
+  double tolRel = 1e-9;
+  if (!arith)
+  {
+    Sys* S = gate.sys(0);
+    if (!S || !S->solved || !(S->kappa <= kKappaMax)) { ctx.inconclusive("ill-conditioned"); return; }
+    tolRel = std::max(1e-9, 8 * epsK(S->kappa, gate.eta) * (double)(S->N));
+  }
+  struct Item { const char* nm; double a, b, scale; };
+  std::vector<Item> items = {{"surface", g1.surface, g2.surface, std::fabs(g2.surface)}, {"zest", g1.zest, g2.zest, zs},
+                             {"sse", g1.sse * g1.sse, g2.sse * g2.sse, ss * ss}, {"cvv", g1.cvv, g2.cvv, ss * ss}};
+  for (auto& it : items)
+  {
+    if (na(it.a) != na(it.b) || (!na(it.a) && std::fabs(it.a - it.b) > tolRel * std::max(it.scale, std::max(std::fabs(it.a), std::fabs(it.b)))))
+    {
+      ctx.fail(V + ":" + it.nm, fmt("%s%s: %.15g with the masked Db, %.15g after removing the %d masked/undefined samples", it.nm, strcmp(it.nm, "sse") ? "" : "^2", it.a, it.b, c.nRemoved()));
+      return;
+    }
+  }
+  for (size_t i = 0; i < g1.weights.size(); i++)
+    if (std::fabs(g1.weights[i] - g2.weights[i]) > tolRel * std::max(1., std::fabs(g2.weights[i])))
+    {
+      ctx.fail(V + ":weights", fmt("weight %d: %.15g with the masked Db, %.15g with the reduced Db", (int)i, g1.weights[i], g2.weights[i]));
+      return;
+    }
+  ctx.nontrivial(c.nRemoved() > 0 && c.nRemoved() < c.n());
+}
+static KM genGlobal()
+{
+  KMOpt o;
+  o.g.movingPct = 0;
+  o.g.blockMode = 1;
+  o.g.nMax = 24;
+  o.g.verrPct = 0;
+  o.g.family = G::pick<int>({0, 1, 1, 1});
+  o.g.intrinsicPct = 0;
+  KM c = genKM(o);
+  c.op = G::i(0, 7);
+  // global_kriging with several variables overflows the heap whatever the selection (matrix_product_safe called
+  // with nvar columns on single-column arrays, CalcGlobal.cpp:160): replay-only case global-kriging-nvar2.case
+  if (c.k.nvar > 1) c.op |= 1;
+  return c;
+}
+VERIF_SUB(global_grid, KM, genGlobal, runGlobal);
+
+// =================================================================== plain Db operations ==
+// A point Db with its masking patterns.
+struct DbC
+{
+  int ndim = 2, nvar = 1;
+  double L = 1.;
+  Points pts;                 // n pairwise distinct locations
+  std::vector<double> z;      // n*nvar, NA allowed
+  std::vector<int> sel;       // empty (no selection column) or n flags
+  std::vector<int> naCoord;   // empty, or n entries (d+1: coordinate d undefined)
+  std::vector<double> w;      // empty, or n positive weights (locator W)
+  template<class A> void io(A& a) { a("ndim", ndim)("nvar", nvar)("L", L)("pts", pts)("z", z)("sel", sel)("naCoord", naCoord)("w", w); }
+  int n() const { return pts.n(); }
+  bool active(int i) const { return sel.empty() || sel[(size_t)i] != 0; }
+  bool coordNA(int i) const { return !naCoord.empty() && naCoord[(size_t)i] != 0; }
+  double zv(int i, int v) const { return z[(size_t)(i * nvar + v)]; }
+  bool allNA(int i) const
+  {
+    for (int v = 0; v < nvar; v++)
+      if (!na(zv(i, v))) return false;
+    return true;
+  }
+  bool anyNA(int i) const
+  {
+    for (int v = 0; v < nvar; v++)
+      if (na(zv(i, v))) return true;
+    return false;
+  }
+};
+struct DbOpt
+{
+  int nMax = 40, nvarMax = 3;
+  int naCoordPct = 25, naValPct = 50, weightPct = 0;
+  int ndimMin = 1;
+  bool integerZ = false;
+  bool naFirstCoordOnly = false;
+};
+static DbC genDbC(const DbOpt& o, int nExtraSets = 0, std::vector<Points>* extra = nullptr, const std::vector<int>& extraSizes = {})
+{
+  DbC c;
+  c.ndim = std::max(o.ndimMin, G::pick<int>({1, 2, 2, 2, 3}));
+  c.nvar = std::min(o.nvarMax, G::pick<int>({1, 1, 2, 2, 3}));
+  int n = G::sz(1, o.nMax);
+  if (G::pct(85)) n = std::max(n, std::min(o.nMax, 4));
+  c.L = G::pick<double>({1., 100., 1e4});
+  std::vector<int> sizes = {n};
+  for (int k = 0; k < nExtraSets; k++) sizes.push_back(extraSizes[(size_t)k]);
+  std::vector<Points> sets = vfgeo::genPointSets(c.ndim, sizes, G::pct(30), true, c.L);
+  c.pts = sets[0];
+  if (extra)
+    for (int k = 0; k < nExtraSets; k++) extra->push_back(sets[(size_t)(k + 1)]);
+  double zoff = G::pick<double>({0., 0., 10., -100.});
+  c.z.resize((size_t)(n * c.nvar));
+  for (auto& v : c.z) v = o.integerZ ? (double)G::i(1, 4) : zoff + G::r(-40, 40, 8);
+  if (G::pct(o.naValPct))
+  {
+    int p = G::pick<int>({10, 30});
+    bool whole = G::b();
+    for (int i = 0; i < n; i++)
+    {
+      if (whole && G::pct(p))
+        for (int v = 0; v < c.nvar; v++) c.z[(size_t)(i * c.nvar + v)] = NA;
+      else if (!whole)
+        for (int v = 0; v < c.nvar; v++)
+          if (G::pct(p)) c.z[(size_t)(i * c.nvar + v)] = NA;
+    }
+  }
+  int mode = 0;
+  c.sel = genSel(n, mode);
+  if (G::pct(o.naCoordPct))
+  {
+    c.naCoord.assign((size_t)n, 0);
+    for (int i = 0; i < n; i++)
+      if (G::pct(20)) c.naCoord[(size_t)i] = o.naFirstCoordOnly ? 1 : 1 + G::i(0, c.ndim - 1);
+  }
+  if (G::pct(o.weightPct))
+  {
+    c.w.resize((size_t)n);
+    for (auto& v : c.w) v = G::r(1, 8, 4);
+  }
+  return c;
+}
+static std::unique_ptr<Db> buildDb(const DbC& c, const std::vector<int>* keep = nullptr)
+{
+  std::vector<int> rows;
+  if (keep) rows = *keep;
+  else
+    for (int i = 0; i < c.n(); i++) rows.push_back(i);
+  int m = (int)rows.size();
+  std::unique_ptr<Db> db(Db::create());
+  for (int d = 0; d < c.ndim; d++)
+  {
+    VectorDouble x((size_t)m);
+    for (int q = 0; q < m; q++) x[q] = (c.coordNA(rows[(size_t)q]) && c.naCoord[(size_t)rows[(size_t)q]] - 1 == d) ? NA : c.pts.at(rows[(size_t)q], d);
+    db->addColumns(x, "x" + std::to_string(d + 1), ELoc::X, d);
+  }
+  for (int v = 0; v < c.nvar; v++)
+  {
+    VectorDouble x((size_t)m);
+    for (int q = 0; q < m; q++) x[q] = c.zv(rows[(size_t)q], v);
+    db->addColumns(x, "z" + std::to_string(v + 1), ELoc::Z, v);
+  }
+  if (!c.w.empty())
+  {
+    VectorDouble x((size_t)m);
+    for (int q = 0; q < m; q++) x[q] = c.w[(size_t)rows[(size_t)q]];
+    db->addColumns(x, "w", ELoc::W, 0);
+  }
+  if (!c.sel.empty() && !keep)
+  {
+    VectorDouble x((size_t)m);
+    for (int q = 0; q < m; q++) x[q] = (double)c.sel[(size_t)rows[(size_t)q]];
+    db->addColumns(x, "sel", ELoc::SEL, 0);
+  }
+  return db;
+}
+// rows which remain: active; coordinates defined (when the operation reads them); values: policy
+//   vpol 0: values do not remove a row; 1: rows with all values undefined leave; 2: rows with any undefined value leave
+static std::vector<int> keptRows(const DbC& c, bool useCoords, int vpol)
+{
+  std::vector<int> k;
+  for (int i = 0; i < c.n(); i++)
+  {
+    if (!c.active(i)) continue;
+    if (useCoords && c.coordNA(i)) continue;
+    if (vpol == 1 && c.allNA(i)) continue;
+    if (vpol == 2 && c.anyNA(i)) continue;
+    k.push_back(i);
+  }
+  return k;
+}
+static std::string dbMaskKind(const DbC& c, bool useCoords, int vpol)
+{
+  bool s = false, x = false, z = false;
+  for (int i = 0; i < c.n(); i++)
+  {
+    if (!c.active(i)) s = true;
+    else if (useCoords && c.coordNA(i)) x = true;
+    else if ((vpol == 1 && c.allNA(i)) || (vpol == 2 && c.anyNA(i))) z = true;
+  }
+  return x ? "nacoord" : (z ? "naval" : (s ? "sel" : "nomask"));
+}
+static void labelDb(const DbC& c, bool useCoords, int vpol, Ctx& ctx)
+{
+  ctx.label("mask:" + dbMaskKind(c, useCoords, vpol));
+  ctx.label("ndim:" + std::to_string(c.ndim));
+  ctx.label("nvar:" + std::to_string(c.nvar));
+  if (c.sel.empty()) ctx.label("sel:none");
+  else
+  {
+    int a = 0;
+    for (int v : c.sel) a += v ? 1 : 0;
+    ctx.label(a == 0 ? "sel:all-masked" : (a == c.n() ? "sel:all-active" : "sel:partial"));
+  }
+  if (!c.w.empty()) ctx.label("weights");
+}
+static uint64_t sigDb(const DbC& c, bool useCoords, int vpol, int extra)
+{
+  int kept = (int)keptRows(c, useCoords, vpol).size();
+  Hash h;
+  h.add(c.ndim).add(c.nvar).add(c.n() < 4 ? c.n() : (c.n() < 12 ? 4 : 5)).add(dbMaskKind(c, useCoords, vpol)).add(kept * 8 / std::max(1, c.n())).add(c.w.empty() ? 0 : 1).add(extra);
+  return h.h;
+}
+static double dbScale(const DbC& c)
+{
+  double s = 0;
+  for (double v : c.z)
+    if (!na(v)) s = std::max(s, std::fabs(v));
+  return s;
+}
+
+// ---------------------------------------------------------------------------- experimental variograms
+struct VarioC
+{
+  DbC d;
+  int calc = 0;       // index in the list below
+  int ndir = 1, nlag = 5, bySample = 0;
+  double dlag = 0.1, toldis = 0.5, angref = 0.;
+  template<class A> void io(A& a) { a("d", d)("calc", calc)("ndir", ndir)("nlag", nlag)("bySample", bySample)("dlag", dlag)("toldis", toldis)("angref", angref); }
+};
+static const char* kCalcNames[] = {"VARIOGRAM", "COVARIANCE", "COVARIANCE_NC", "MADOGRAM", "RODOGRAM", "POISSON", "GENERAL1", "ORDER4", "COVARIOGRAM"};
+static const ECalcVario& calcOf(int k)
+{
+  switch (k)
+  {
+    case 0: return ECalcVario::VARIOGRAM;
+    case 1: return ECalcVario::COVARIANCE;
+    case 2: return ECalcVario::COVARIANCE_NC;
+    case 3: return ECalcVario::MADOGRAM;
+    case 4: return ECalcVario::RODOGRAM;
+    case 5: return ECalcVario::POISSON;
+    case 6: return ECalcVario::GENERAL1;
+    case 7: return ECalcVario::ORDER4;
+    default: return ECalcVario::COVARIOGRAM;
+  }
+}
+static VarioC genVario()
+{
+  VarioC c;
+  DbOpt o;
+  o.nMax = 30;
+  o.nvarMax = 2;
+  o.weightPct = 25;
+  // an undefined coordinate other than the first one reaches DirParam::getLagRank with a distance of 1e30:
+  // (int) floor(1e30) is undefined behaviour (UBSan abort; replay-only case vario-nacoord-lagrank.case).
+  // With the first coordinate undefined the sample sorts last and the 1-D distance test stops the pair loop.
+  o.naFirstCoordOnly = true;
+  c.d = genDbC(o);
+  c.calc = G::pick<int>({0, 0, 0, 1, 1, 2, 3, 4, 5, 7, 8});
+  if (c.calc == 6) c.calc = 0;
+  c.ndir = (c.d.ndim == 2 && G::pct(40)) ? G::pick<int>({2, 4}) : 1;
+  c.nlag = G::i(2, 8);
+  c.dlag = c.d.L * G::pick<double>({0.05, 0.1, 0.2, 0.4});
+  c.toldis = G::pick<double>({0.5, 0.5, 0.25});
+  c.angref = G::pick<double>({0., 30., 45.});
+  c.bySample = G::pct(15) ? 1 : 0;
+  if (c.calc == 5 || c.calc == 6) c.d.w.clear();
+  return c;
+}
+static std::unique_ptr<Vario> computeVario(const VarioC& c, Db* db, Ctx& ctx)
+{
+  std::unique_ptr<VarioParam> vp;
+  if (c.ndir > 1) vp.reset(VarioParam::createMultiple(c.ndir, c.nlag, c.dlag, c.toldis, c.angref));
+  else vp.reset(VarioParam::createOmniDirection(c.nlag, c.dlag, c.toldis));
+  ctx.at(std::string("Vario::compute:") + kCalcNames[c.calc]);
+  std::unique_ptr<Vario> v(Vario::create(*vp));
+  if (v->compute(db, calcOf(c.calc), c.bySample != 0) != 0) return nullptr;
+  return v;
+}
+static void runVario(const VarioC& c, Ctx& ctx)
+{
+  resetGlobals(c.d.ndim);
+  debugHook();
+  const DbC& d = c.d;
+  labelDb(d, true, 1, ctx);
+  ctx.label(std::string("calc:") + kCalcNames[c.calc]);
+  if (c.bySample) ctx.label("by-sample");
+  ctx.sig = sigDb(d, true, 1, c.calc * 4 + c.ndir);
+  std::string MK = dbMaskKind(d, true, 1), CN = std::string(kCalcNames[c.calc]) + (c.bySample ? " by sample" : "");
+  std::string V = "vario";
+  std::vector<int> keep = keptRows(d, true, 1);
+  std::unique_ptr<Db> db1 = buildDb(d);
+  Snap before = snapOf(db1.get());
+  std::unique_ptr<Vario> v1 = computeVario(c, db1.get(), ctx);
+  std::string what;
+  if (!snapUnchanged(before, db1.get(), what)) { ctx.fail(V + ":data-cells", "cells of the Db changed: " + what); return; }
+  if (keep.empty()) { ctx.label("reduced:no-data"); return; }
+  std::unique_ptr<Db> db2 = buildDb(d, &keep);
+  std::unique_ptr<Vario> v2 = computeVario(c, db2.get(), ctx);
+  if ((v1 == nullptr) != (v2 == nullptr)) { ctx.fail(V + ":error-status:" + MK, CN + fmt(" compute() %s with the masked Db and %s with the reduced Db", v1 ? "succeeds" : "fails", v2 ? "succeeds" : "fails")); return; }
+  if (!v1) { ctx.label("both-refused"); return; }
+  double zs = dbScale(d), z2 = std::max(1e-300, zs * zs);
+  if (c.calc == 7) z2 = z2 * z2;
+  if (c.calc == 3) z2 = zs;
+  if (c.calc == 4) z2 = std::sqrt(zs);
+  long npairs = 0;
+  int nv = d.nvar;
+  for (int idir = 0; idir < v1->getDirectionNumber(); idir++)
+    for (int iv = 0; iv < nv; iv++)
+      for (int jv = 0; jv <= iv; jv++)
+      {
+        VectorDouble sw1 = v1->getSwVec(idir, iv, jv, false), sw2 = v2->getSwVec(idir, iv, jv, false);
+        VectorDouble gg1 = v1->getGgVec(idir, iv, jv, false, false, false), gg2 = v2->getGgVec(idir, iv, jv, false, false, false);
+        VectorDouble hh1 = v1->getHhVec(idir, iv, jv, false), hh2 = v2->getHhVec(idir, iv, jv, false);
+        if (sw1.size() != sw2.size() || gg1.size() != gg2.size() || hh1.size() != hh2.size()) { ctx.fail(V + ":sizes", "numbers of lags differ"); return; }
+        for (size_t l = 0; l < sw1.size(); l++)
+        {
+          double swScale = d.w.empty() ? 0. : std::max(std::fabs(sw1[l]), std::fabs(sw2[l]));
+          bool swOk = d.w.empty() ? (sw1[l] == sw2[l]) : same(sw1[l], sw2[l], swScale);
+          if (!swOk) { ctx.fail(V + ":sw:" + MK, CN + fmt(" dir %d var (%d,%d) lag %d: %.15g pairs (weights) with the masked Db, %.15g after removing the %d masked/undefined samples", idir, iv, jv, (int)l, sw1[l], sw2[l], d.n() - (int)keep.size())); return; }
+          if (!na(sw1[l])) npairs += (long)sw1[l];
+          if (!same(hh1[l], hh2[l], c.dlag * c.nlag)) { ctx.fail(V + ":hh:" + MK, CN + fmt(" dir %d var (%d,%d) lag %d: mean distance %.15g with the masked Db, %.15g with the reduced Db", idir, iv, jv, (int)l, hh1[l], hh2[l])); return; }
+          if (!same(gg1[l], gg2[l], z2)) { ctx.fail(V + ":gg:" + MK, CN + fmt(" dir %d var (%d,%d) lag %d: value %.15g with the masked Db, %.15g with the reduced Db", idir, iv, jv, (int)l, gg1[l], gg2[l])); return; }
+        }
+      }
+  // global statistics stored in the variogram
+  for (int iv = 0; iv < nv; iv++)
+  {
+    if (!same(v1->getMean(iv), v2->getMean(iv), zs)) { ctx.fail(V + ":mean", CN + fmt(" mean of variable %d: %.15g with the masked Db, %.15g with the reduced Db", iv, v1->getMean(iv), v2->getMean(iv))); return; }
+    for (int jv = 0; jv <= iv; jv++)
+      if (!same(v1->getVar(iv, jv), v2->getVar(iv, jv), zs * zs)) { ctx.fail(V + ":var:" + MK, CN + fmt(" variance (%d,%d): %.15g with the masked Db, %.15g with the reduced Db", iv, jv, v1->getVar(iv, jv), v2->getVar(iv, jv))); return; }
+  }
+  // non-trivial: a removed sample lies within the range of lags of a kept one
+  bool matter = false;
+  double hmax = c.dlag * (c.nlag + c.toldis);
+  for (int i = 0; i < d.n() && !matter; i++)
+  {
+    if (std::find(keep.begin(), keep.end(), i) != keep.end() || d.coordNA(i)) continue;
+    for (int j : keep)
+      if (vfgeo::euclid(d.ndim, d.pts.p(i), d.pts.p(j)) < hmax) { matter = true; break; }
+  }
+  ctx.nontrivial(npairs > 0 && (int)keep.size() < d.n() && matter);
+}
+VERIF_SUB(vario, VarioC, genVario, runVario);
+
+// ---------------------------------------------------------------------------- statistics
+struct StatC
+{
+  DbC d;
+  int flagIso = 1;
+  double proba = 0.5, vmin = NA, vmax = NA;
+  int multiOper = 0;
+  template<class A> void io(A& a) { a("d", d)("flagIso", flagIso)("proba", proba)("vmin", vmin)("vmax", vmax)("multiOper", multiOper); }
+};
+static StatC genStat()
+{
+  StatC c;
+  DbOpt o;
+  o.naCoordPct = 0;
+  c.d = genDbC(o);
+  c.flagIso = G::b() ? 1 : 0;
+  c.proba = G::pick<double>({0.1, 0.25, 0.5, 0.9});
+  // no cut-offs vmin / vmax: dbStatisticsMono always computes a median from the values inside the cut-offs with
+  // the rank of the whole set and reads beyond the array (not a masking matter; ASan abort)
+  c.multiOper = G::i(0, 5);
+  return c;
+}
+static bool sameTable(const Table& a, const Table& b, double scale, std::string& what)
+{
+  if (a.getNRows() != b.getNRows() || a.getNCols() != b.getNCols())
+  {
+    what = fmt("table %dx%d with the masked Db, %dx%d with the reduced Db", a.getNRows(), a.getNCols(), b.getNRows(), b.getNCols());
+    return false;
+  }
+  for (int i = 0; i < a.getNRows(); i++)
+    for (int j = 0; j < a.getNCols(); j++)
+      if (!same(a.getValue(i, j), b.getValue(i, j), scale))
+      {
+        what = fmt("row %d (%s) column %d (%s): %.15g with the masked Db, %.15g with the reduced Db", i, a.getRowName(i).c_str(), j, a.getColumnName(j).c_str(), a.getValue(i, j), b.getValue(i, j));
+        return false;
+      }
+  return true;
+}
+static void runStats(const StatC& c, Ctx& ctx)
+{
+  resetGlobals(c.d.ndim);
+  debugHook();
+  const DbC& d = c.d;
+  // a sample leaves the reduced Db when it is masked, or when all the variables under study are undefined there
+  labelDb(d, false, 1, ctx);
+  ctx.sig = sigDb(d, false, 1, c.flagIso * 8 + c.multiOper);
+  std::string M = dbMaskKind(d, false, 1);
+  std::vector<int> keep = keptRows(d, false, 1);
+  std::unique_ptr<Db> db1 = buildDb(d);
+  Snap before = snapOf(db1.get());
+  if (keep.empty()) ctx.label("reduced:no-data");
+  std::unique_ptr<Db> db2 = keep.empty() ? nullptr : buildDb(d, &keep);
+  VectorString names;
+  for (int v = 0; v < d.nvar; v++) names.push_back("z" + std::to_string(v + 1));
+  double zs = dbScale(d), z2 = zs * zs;
+  std::string what;
+  bool cut = !na(c.vmin);
+
+  // --- monovariate table
+  {
+    std::vector<EStatOption> opers = {EStatOption::NUM, EStatOption::MEAN, EStatOption::VAR, EStatOption::STDV, EStatOption::MINI, EStatOption::MAXI, EStatOption::SUM, EStatOption::QUANT};
+    if (cut) { opers.push_back(EStatOption::T); opers.push_back(EStatOption::Q); opers.push_back(EStatOption::M); opers.push_back(EStatOption::B); opers.push_back(EStatOption::PROP); }
+    else opers.push_back(EStatOption::MEDIAN); // the median with cut-offs reads beyond its work array (not a masking matter)
+    ctx.at("dbStatisticsMono");
+    Table t1 = dbStatisticsMono(db1.get(), names, opers, c.flagIso != 0, c.proba, c.vmin, c.vmax);
+    if (db2)
+    {
+      Table t2 = dbStatisticsMono(db2.get(), names, opers, c.flagIso != 0, c.proba, c.vmin, c.vmax);
+      if (!sameTable(t1, t2, std::max(z2, zs), what)) { ctx.fail("stats-mono:" + M, what); return; }
+    }
+    else
+      for (int i = 0; i < t1.getNRows(); i++)
+        if (t1.getValue(i, 0) != 0.) { ctx.fail("stats-mono:" + M + ":count-from-nothing", fmt("NUM = %g although no sample is active", t1.getValue(i, 0))); return; }
+  }
+  // --- correlation table and multivariate table
+  if (db2)
+  {
+    ctx.at("dbStatisticsCorrel");
+    Table t1 = dbStatisticsCorrel(db1.get(), names, c.flagIso != 0), t2 = dbStatisticsCorrel(db2.get(), names, c.flagIso != 0);
+    if (!sameTable(t1, t2, 1., what)) { ctx.fail("stats-correl:" + M, what); return; }
+    static const char* mo[] = {"MEAN", "VAR", "NUM", "COV", "CORR", "STDV"};
+    ctx.at(std::string("dbStatisticsMulti:") + mo[c.multiOper]);
+    Table m1 = dbStatisticsMulti(db1.get(), names, EStatOption::fromKey(mo[c.multiOper]), c.flagIso != 0);
+    Table m2 = dbStatisticsMulti(db2.get(), names, EStatOption::fromKey(mo[c.multiOper]), c.flagIso != 0);
+    if (!sameTable(m1, m2, std::max(z2, zs), what)) { ctx.fail(std::string("stats-multi:") + M, std::string(mo[c.multiOper]) + ": " + what); return; }
+  }
+  // --- helpers of the Db (useSel = true)
+  if (db2)
+  {
+    ctx.at("Db::getMean...");
+    for (int v = 0; v < d.nvar; v++)
+    {
+      const std::string& nm = names[v];
+      struct It { const char* w; double a, b, sc; };
+      std::vector<It> its = {{"getMean", db1->getMean(nm, true), db2->getMean(nm, true), zs},
+                             {"getVariance", db1->getVariance(nm, true), db2->getVariance(nm, true), z2},
+                             {"getStdv", db1->getStdv(nm, true), db2->getStdv(nm, true), zs},
+                             {"getMinimum", db1->getMinimum(nm, true), db2->getMinimum(nm, true), zs},
+                             {"getMaximum", db1->getMaximum(nm, true), db2->getMaximum(nm, true), zs},
+                             {"getActiveAndDefinedNumber(name)", (double)db1->getActiveAndDefinedNumber(nm), (double)db2->getActiveAndDefinedNumber(nm), 0.},
+                             {"getActiveAndDefinedNumber(item)", (double)db1->getActiveAndDefinedNumber(v), (double)db2->getActiveAndDefinedNumber(v), 0.},
+                             {"getNumberActiveAndDefined", (double)db1->getNumberActiveAndDefined(v), (double)db2->getNumberActiveAndDefined(v), 0.}};
+      if (v > 0) its.push_back({"getCorrelation", db1->getCorrelation(names[0], nm, true), db2->getCorrelation(names[0], nm, true), 1.});
+      for (auto& it : its)
+        if (!same(it.a, it.b, it.sc, it.sc == z2 ? 1e-9 : 1e-10))
+        {
+          ctx.fail(std::string("db-helper:") + it.w + ":" + M, fmt("%s(%s): %.15g with the masked Db, %.15g with the reduced Db", it.w, nm.c_str(), it.a, it.b));
+          return;
+        }
+    }
+    // geometry of the active samples (the reduced Db for these keeps the samples without value)
+    std::vector<int> keepSel = keptRows(d, false, 0);
+    std::unique_ptr<Db> db3 = buildDb(d, &keepSel);
+    int nact = db1->getSampleNumber(true);
+    if (nact != (int)keepSel.size()) { ctx.fail("db-helper:getSampleNumber:" + M, fmt("getSampleNumber(true) = %d, %d samples are active", nact, (int)keepSel.size())); return; }
+    VectorInt ra = db1->getRanksActive();
+    if (std::vector<int>(ra.begin(), ra.end()) != keepSel) { ctx.fail("db-helper:getRanksActive:" + M, "getRanksActive() is not the list of active rows"); return; }
+    for (int dd = 0; dd < d.ndim; dd++)
+    {
+      VectorDouble e1 = db1->getExtrema(dd, true), e3 = db3->getExtrema(dd, true);
+      if (e1.size() != 2 || e3.size() != 2 || !same(e1[0], e3[0], d.L) || !same(e1[1], e3[1], d.L)) { ctx.fail("db-helper:getExtrema:" + M, fmt("getExtrema(%d, useSel) differs from the extrema of the active samples", dd)); return; }
+      if (!same(db1->getCenter(dd, true), db3->getCenter(dd, true), d.L + 1e4)) { ctx.fail("db-helper:getCenter:" + M, "getCenter(useSel) differs"); return; }
+      if (!same(db1->getExtension(dd, true), db3->getExtension(dd, true), d.L)) { ctx.fail("db-helper:getExtension:" + M, "getExtension(useSel) differs"); return; }
+    }
+    if (!same(db1->getExtensionDiagonal(true), db3->getExtensionDiagonal(true), d.L)) { ctx.fail("db-helper:getExtensionDiagonal:" + M, "getExtensionDiagonal(useSel) differs"); return; }
+  }
+  if (!snapUnchanged(before, db1.get(), what)) { ctx.fail("stats:data-cells:" + M, "cells of the Db changed: " + what); return; }
+  ctx.nontrivial(!keep.empty() && (int)keep.size() < d.n());
+}
+VERIF_SUB(stats, StatC, genStat, runStats);
+
+// ---------------------------------------------------------------------------- covariance / drift matrices
+struct CovMC
+{
+  DbC d;
+  DbC d2;                  // second Db (rectangular matrices)
+  std::vector<StructC> st;
+  int order = 0;
+  int ivar = -1, jvar = -1;
+  int api = 0;             // 0 evalCovMatrix(db1,db2) 1 Optim 2 Symmetric(db1) 3 SymmetricOptim 4 Sparse
+  template<class A> void io(A& a) { a("d", d)("d2", d2)("st", st)("order", order)("ivar", ivar)("jvar", jvar)("api", api); }
+};
+static CovMC genCovM()
+{
+  CovMC c;
+  DbOpt o;
+  o.nMax = 25;
+  o.naCoordPct = 20;
+  c.d = genDbC(o);
+  DbOpt o2 = o;
+  c.d2 = genDbC(o2);
+  // same space and number of variables; locations of the second Db are its own (no need to be distinct from the first)
+  if (c.d2.ndim != c.d.ndim || c.d2.nvar != c.d.nvar)
+  {
+    c.d2 = c.d;
+    int m = 0;
+    c.d2.sel = genSel(c.d2.n(), m);
+    for (auto& v : c.d2.pts.c) v += c.d.L * 0.013;
+  }
+  c.d2.L = c.d.L;
+  std::vector<int> types = {T_EXPONENTIAL, T_SPHERICAL, T_CUBIC, T_GAUSSIAN, T_EXPONENTIAL, T_SPHERICAL};
+  int nst = G::pick<int>({1, 1, 2});
+  for (int k = 0; k < nst; k++) c.st.push_back(genStruct(c.d.ndim, c.d.nvar, c.d.L, G::pickv(types), k == 0));
+  if (G::pct(30)) c.st.push_back(genStruct(c.d.ndim, c.d.nvar, c.d.L, T_NUGGET, false));
+  c.order = G::pick<int>({0, 1, 1, 2});
+  c.ivar = G::pct(50) ? -1 : G::i(0, c.d.nvar - 1);
+  c.jvar = G::pct(50) ? -1 : G::i(0, c.d.nvar - 1);
+  c.api = G::i(0, 4);
+  return c;
+}
+static bool sameMatrix(const AMatrix& a, const AMatrix& b, double scale, std::string& what)
+{
+  if (a.getNRows() != b.getNRows() || a.getNCols() != b.getNCols())
+  {
+    what = fmt("matrix %dx%d with the masked Db, %dx%d with the reduced Db", a.getNRows(), a.getNCols(), b.getNRows(), b.getNCols());
+    return false;
+  }
+  for (int i = 0; i < a.getNRows(); i++)
+    for (int j = 0; j < a.getNCols(); j++)
+      if (!same(a.getValue(i, j), b.getValue(i, j), scale))
+      {
+        what = fmt("entry (%d,%d): %.15g with the masked Db, %.15g with the reduced Db", i, j, a.getValue(i, j), b.getValue(i, j));
+        return false;
+      }
+  return true;
+}
+static void runCovM(const CovMC& c, Ctx& ctx)
+{
+  resetGlobals(c.d.ndim);
+  debugHook();
+  const DbC &d = c.d, &e = c.d2;
+  // rows of a matrix = (variable, active sample where the variable is defined): a sample without any defined
+  // variable has no row, a partially defined one keeps the rows of its defined variables on both sides
+  labelDb(d, true, 1, ctx);
+  static const char* apis[] = {"evalCovMatrix", "evalCovMatrixOptim", "evalCovMatrixSymmetric", "evalCovMatrixSymmetricOptim", "evalCovMatrixSparse"};
+  ctx.label(std::string("api:") + apis[c.api]);
+  bool two = (c.api == 0 || c.api == 1 || c.api == 4);
+  std::string M1 = dbMaskKind(d, true, 1), M2 = dbMaskKind(e, true, 1);
+  std::string M = (M1 == "nacoord" || (two && M2 == "nacoord")) ? "nacoord" : ((M1 == "nomask" && two) ? M2 : M1);
+  ctx.sig = sigDb(d, true, 1, c.api * 16 + c.order * 4 + (c.ivar + 1));
+  std::vector<int> k1 = keptRows(d, true, 1), k2 = keptRows(e, true, 1);
+  std::unique_ptr<Db> a1 = buildDb(d), b1 = buildDb(e);
+  Snap sa = snapOf(a1.get()), sb = snapOf(b1.get());
+  KCase kc;
+  kc.ndim = d.ndim;
+  kc.nvar = d.nvar;
+  kc.st = c.st;
+  kc.order = c.order;
+  kc.nfex = 0;
+  std::unique_ptr<Model> model = buildModel(kc, ctx);
+  if (!model) return;
+  double cs = 0;
+  for (auto& s : c.st)
+    for (double v : s.sill) cs = std::max(cs, std::fabs(v));
+  cs *= (double)c.st.size();
+  std::string what;
+  bool haveRed = !k1.empty() && (!two || !k2.empty());
+  std::unique_ptr<Db> a2 = k1.empty() ? nullptr : buildDb(d, &k1), b2 = k2.empty() ? nullptr : buildDb(e, &k2);
+  int iv = c.ivar, jv = two ? c.jvar : c.ivar;
+
+  auto evalCov = [&](Db* A, Db* B, std::unique_ptr<AMatrix>& out) {
+    ctx.at(apis[c.api]);
+    switch (c.api)
+    {
+      case 0: out.reset(new MatrixRectangular(model->evalCovMatrix(A, B, iv, jv))); break;
+      case 1: out.reset(new MatrixRectangular(model->evalCovMatrixOptim(A, B, iv, jv))); break;
+      case 2: out.reset(new MatrixSquareSymmetric(model->evalCovMatrixSymmetric(A, iv))); break;
+      case 3: out.reset(new MatrixSquareSymmetric(model->evalCovMatrixSymmetricOptim(A, iv))); break;
+      default:
+      {
+        MatrixSparse* sp = model->evalCovMatrixSparse(A, B, iv, jv, VectorInt(), VectorInt(), nullptr, 0.);
+        if (sp) { out.reset(new MatrixRectangular(sp->getNRows(), sp->getNCols())); for (int i = 0; i < sp->getNRows(); i++) for (int j = 0; j < sp->getNCols(); j++) out->setValue(i, j, sp->getValue(i, j)); delete sp; }
+        else out.reset(new MatrixRectangular());
+      }
+    }
+  };
+  std::unique_ptr<AMatrix> m1, m2;
+  evalCov(a1.get(), b1.get(), m1);
+  if (haveRed)
+  {
+    evalCov(a2.get(), b2.get(), m2);
+    if (!sameMatrix(*m1, *m2, cs, what)) { ctx.fail(std::string("covmat:") + M + ":" + apis[c.api], what); return; }
+  }
+  else
+  {
+    ctx.label("reduced:no-data");
+  }
+  // drift matrix of the first Db
+  if (!k1.empty())
+  {
+    ctx.at("evalDriftMatrix");
+    MatrixRectangular d1 = model->evalDriftMatrix(a1.get(), iv), d2 = model->evalDriftMatrix(a2.get(), iv);
+    double xs = 1;
+    for (double v : d.pts.c) xs = std::max(xs, std::fabs(v));
+    if (!sameMatrix(d1, d2, std::pow(xs, c.order), what)) { ctx.fail(std::string("driftmat:") + M1, what); return; }
+  }
+  if (!snapUnchanged(sa, a1.get(), what) || !snapUnchanged(sb, b1.get(), what)) { ctx.fail("covmat:data-cells", "cells of a Db changed: " + what); return; }
+  ctx.nontrivial(haveRed && ((int)k1.size() < d.n() || (two && (int)k2.size() < e.n())));
+}
+VERIF_SUB(covmat, CovMC, genCovM, runCovM);
+
+// ---------------------------------------------------------------------------- migrate
+// mode 0 point->point, 1 point->point (ball tree), 2 point->grid, 3 point->grid (fill), 4 point->grid (fill, ball),
+//      5 grid->point, 6 grid->point (interpolation).
+// Modes 0-4: the source points carry the masks, reduced side = rows removed.  Modes 5-6: the source is a grid
+// (cells cannot be removed): reduced side = same grid without selection, the masked cells holding TEST instead.
+struct MigC
+{
+  DbC d;                    // the point Db (source in modes 0-4, target in modes 5-6)
+  int mode = 0;
+  Points targ;              // point targets (modes 0-1)
+  std::vector<int> tsel;    // selection of the targets (points or grid cells), may be empty
+  std::vector<double> pre;  // pre-existing column of the target
+  std::vector<int> gnx;     // grid (modes 2-6)
+  std::vector<double> gdx, gx0;
+  std::vector<double> gval; // values on the grid (modes 5-6), NA allowed
+  std::vector<int> gsel;    // selection of the source grid (modes 5-6)
+  std::vector<double> dmax; // empty or ndim
+  int distType = 1;
+  template<class A> void io(A& a)
+  {
+    a("d", d)("mode", mode)("targ", targ)("tsel", tsel)("pre", pre)("gnx", gnx)("gdx", gdx)("gx0", gx0)("gval", gval)("gsel", gsel)("dmax", dmax)("distType", distType);
+  }
+  int ngrid() const
+  {
+    int p = 1;
+    for (int v : gnx) p *= v;
+    return p;
+  }
+};
+static const char* kMigNames[] = {"p2p", "p2p-ball", "p2g", "p2g-fill", "p2g-fill-ball", "g2p", "g2p-inter"};
+static MigC genMig()
+{
+  MigC c;
+  c.mode = G::pick<int>({0, 0, 1, 2, 2, 3, 3, 4, 5, 6});
+  DbOpt o;
+  o.nMax = 30;
+  o.nvarMax = 1;
+  o.naCoordPct = (c.mode == 0 || c.mode == 2) ? 20 : 0; // the other source-side algorithms are only safe with defined coordinates
+  o.naValPct = 30;
+  int nt = G::sz(1, 12);
+  std::vector<Points> extra;
+  c.d = genDbC(o, 1, &extra, {nt});
+  if (c.mode >= 5) c.d.naCoord.clear();
+  int ndim = c.d.ndim;
+  if (c.mode <= 1)
+  {
+    c.targ = extra[0];
+    int m = 0;
+    if (G::pct(50)) c.tsel = genSel(nt, m);
+  }
+  else
+  {
+    // a grid over the box of the points ([origin, origin + L] per axis is unknown here: use the points' own box)
+    int left = 24;
+    for (int dd = 0; dd < ndim; dd++)
+    {
+      double lo = 1e300, hi = -1e300;
+      for (int i = 0; i < c.d.n(); i++) { lo = std::min(lo, c.d.pts.at(i, dd)); hi = std::max(hi, c.d.pts.at(i, dd)); }
+      int nx = G::i(1, std::min(5, left));
+      left = std::max(1, left / nx);
+      double ext = std::max(hi - lo, 0.05 * c.d.L);
+      c.gnx.push_back(nx);
+      c.gdx.push_back(ext / nx * G::pick<double>({1.05, 0.7, 1.3}));
+      c.gx0.push_back(lo + c.gdx.back() * G::pick<double>({0.37, 0.5, -0.21}));
+    }
+    int ng = c.ngrid(), m = 0;
+    if (c.mode <= 4) { if (G::pct(50)) c.tsel = genSel(ng, m); }
+    else
+    {
+      c.gval.resize((size_t)ng);
+      for (auto& v : c.gval) v = G::pct(10) ? NA : G::r(-40, 40, 8);
+      c.gsel = genSel(ng, m);
+      c.tsel = c.d.sel; // the target is the point Db itself
+    }
+  }
+  if (c.mode <= 4 && G::pct(50))
+  {
+    c.pre.resize((size_t)(c.mode <= 1 ? nt : c.ngrid()));
+    for (auto& v : c.pre) v = G::pct(15) ? NA : G::r(-9, 9, 4);
+  }
+  if (G::pct(40))
+    for (int dd = 0; dd < ndim; dd++) c.dmax.push_back(c.d.L * G::pick<double>({0.1, 0.3, 0.6}));
+  c.distType = G::pick<int>({1, 2});
+  return c;
+}
+static std::unique_ptr<DbGrid> buildGrid(const MigC& c)
+{
+  VectorInt nx(c.gnx.begin(), c.gnx.end());
+  VectorDouble dx(c.gdx.begin(), c.gdx.end()), x0(c.gx0.begin(), c.gx0.end());
+  return std::unique_ptr<DbGrid>(DbGrid::create(nx, dx, x0));
+}
+static void runMig(const MigC& c, Ctx& ctx)
+{
+  const DbC& d = c.d;
+  resetGlobals(d.ndim);
+  debugHook();
+  bool gridSource = c.mode >= 5;
+  labelDb(d, true, 0, ctx);
+  ctx.label(std::string("mode:") + kMigNames[c.mode]);
+  if (!c.dmax.empty()) ctx.label("dmax");
+  ctx.sig = sigDb(d, true, 0, c.mode * 4 + (c.dmax.empty() ? 0 : 1) + (c.tsel.empty() ? 0 : 2));
+  std::string what;
+  VectorDouble dmax(c.dmax.begin(), c.dmax.end());
+  bool fill = (c.mode == 3 || c.mode == 4), inter = (c.mode == 6), ball = (c.mode == 1 || c.mode == 4);
+  auto addTargetExtras = [&](Db* t, const std::vector<int>* rows) {
+    int nt = t->getSampleNumber();
+    if (!c.pre.empty())
+    {
+      VectorDouble v((size_t)nt);
+      for (int q = 0; q < nt; q++) v[q] = c.pre[(size_t)(rows ? (*rows)[(size_t)q] : q)];
+      t->addColumns(v, "pre", ELoc::UNKNOWN, 0);
+    }
+    if (!c.tsel.empty() && !rows)
+    {
+      VectorDouble v(c.tsel.begin(), c.tsel.end());
+      t->addColumns(v, "tsel", ELoc::SEL, 0);
+    }
+  };
+
+  if (!gridSource)
+  {
+    std::string M = dbMaskKind(d, true, 0);
+    std::string V = std::string("migrate-") + kMigNames[c.mode] + ":" + M;
+    std::vector<int> keep = keptRows(d, true, 0);
+    std::unique_ptr<Db> in1 = buildDb(d), in2 = keep.empty() ? nullptr : buildDb(d, &keep);
+    std::unique_ptr<Db> out1, out2;
+    std::vector<int> kt;
+    bool gridTarget = c.mode >= 2;
+    int nt = gridTarget ? c.ngrid() : c.targ.n();
+    for (int t = 0; t < nt; t++)
+      if (c.tsel.empty() || c.tsel[(size_t)t]) kt.push_back(t);
+    auto mkTarget = [&](bool reduced) -> std::unique_ptr<Db> {
+      if (gridTarget)
+      {
+        std::unique_ptr<DbGrid> g = buildGrid(c);
+        addTargetExtras(g.get(), nullptr); // a grid keeps its selection on both sides
+        return g;
+      }
+      std::unique_ptr<Db> t(Db::create());
+      const std::vector<int>* rows = reduced ? &kt : nullptr;
+      int m = reduced ? (int)kt.size() : nt;
+      for (int dd = 0; dd < d.ndim; dd++)
+      {
+        VectorDouble x((size_t)m);
+        for (int q = 0; q < m; q++) x[q] = c.targ.at(reduced ? kt[(size_t)q] : q, dd);
+        t->addColumns(x, "x" + std::to_string(dd + 1), ELoc::X, dd);
+      }
+      addTargetExtras(t.get(), rows);
+      return t;
+    };
+    // point -> grid with filling and no usable source sample: expandPointToGrid indexes an empty rank array
+    // (null dereference; replay-only case migrate-fill-no-active-source.case)
+    if (keep.empty() && c.mode == 3) { ctx.label("skipped:p2g-fill-no-source"); return; }
+    out1 = mkTarget(false);
+    Snap sIn = snapOf(in1.get()), sOut = snapOf(out1.get());
+    ctx.at(V);
+    int e1 = migrate(in1.get(), out1.get(), "z1", c.distType, dmax, fill, inter, ball);
+    if (!snapUnchanged(sIn, in1.get(), what)) { ctx.fail(V + ":data-cells", "cells of the source Db changed: " + what); return; }
+    if (!snapUnchanged(sOut, out1.get(), what)) { ctx.fail(V + ":target-cells", "pre-existing cells of the target Db changed: " + what); return; }
+    Cols c1 = newCols(sOut, out1.get());
+    if (e1 == 0)
+      for (auto& col : c1)
+        for (int t = 0; t < nt; t++)
+          if (!c.tsel.empty() && !c.tsel[(size_t)t] && !na(col.second[(size_t)t]))
+          {
+            ctx.fail(V + ":masked-target-written", fmt("masked target %d holds %.12g in the new column '%s'", t, col.second[(size_t)t], col.first.c_str()));
+            return;
+          }
+    if (keep.empty() || kt.empty())
+    {
+      ctx.label("reduced:none");
+      if (e1 == 0 && keep.empty())
+        for (auto& col : c1)
+          for (int t = 0; t < nt; t++)
+            if (!na(col.second[(size_t)t])) { ctx.fail(V + ":value-from-nothing", fmt("target %d receives %.12g although no source sample is usable", t, col.second[(size_t)t])); return; }
+      return;
+    }
+    out2 = mkTarget(true);
+    Snap sOut2 = snapOf(out2.get());
+    int e2 = migrate(in2.get(), out2.get(), "z1", c.distType, dmax, fill, inter, ball);
+    if ((e1 != 0) != (e2 != 0)) { ctx.fail(V + ":error-status", fmt("migrate() returns %d with the masked Db and %d with the reduced Db", e1, e2)); return; }
+    if (e1 != 0) { ctx.label("both-refused"); return; }
+    Cols c2 = newCols(sOut2, out2.get());
+    if (c1.size() != 1 || c2.size() != 1) { ctx.fail(V + ":columns", fmt("%d / %d new columns", (int)c1.size(), (int)c2.size())); return; }
+    int nDef = 0;
+    for (size_t q = 0; q < kt.size(); q++)
+    {
+      int t = kt[q];
+      double a = c1[0].second[(size_t)t], b = c2[0].second[gridTarget ? (size_t)t : q];
+      if (!na(a)) nDef++;
+      if (!(a == b || (na(a) && na(b))))
+      {
+        ctx.fail(V + ":value", fmt("target %d: %.12g with the masked Db, %.12g after removing the %d masked/undefined source samples", t, a, b, d.n() - (int)keep.size()));
+        return;
+      }
+    }
+    ctx.nontrivial(nDef > 0 && (int)keep.size() < d.n());
+    return;
+  }
+
+  // ---- grid source
+  {
+    bool anyMasked = false;
+    for (int v : c.gsel) anyMasked = anyMasked || v == 0;
+    std::string V = std::string("migrate-") + kMigNames[c.mode] + ":" + (anyMasked ? "sel" : "nomask");
+    int ng = c.ngrid();
+    auto mkSource = [&](bool reduced) {
+      std::unique_ptr<DbGrid> g = buildGrid(c);
+      VectorDouble v((size_t)ng);
+      for (int q = 0; q < ng; q++) v[q] = (reduced && !c.gsel.empty() && !c.gsel[(size_t)q]) ? NA : c.gval[(size_t)q];
+      g->addColumns(v, "z1", ELoc::Z, 0);
+      if (!reduced && !c.gsel.empty())
+      {
+        VectorDouble sv(c.gsel.begin(), c.gsel.end());
+        g->addColumns(sv, "gsel", ELoc::SEL, 0);
+      }
+      return g;
+    };
+    std::unique_ptr<DbGrid> g1 = mkSource(false), g2 = mkSource(true);
+    std::unique_ptr<Db> t1 = buildDb(d), t2 = buildDb(d); // same targets (with their selection) on both sides
+    Snap sG = snapOf(g1.get()), sT = snapOf(t1.get()), sT2 = snapOf(t2.get());
+    ctx.at(V);
+    int e1 = migrate(g1.get(), t1.get(), "z1", c.distType, dmax, fill, inter, ball);
+    int e2 = migrate(g2.get(), t2.get(), "z1", c.distType, dmax, fill, inter, ball);
+    if (!snapUnchanged(sG, g1.get(), what)) { ctx.fail(V + ":data-cells", "cells of the source grid changed: " + what); return; }
+    if (!snapUnchanged(sT, t1.get(), what)) { ctx.fail(V + ":target-cells", "pre-existing cells of the target Db changed: " + what); return; }
+    if ((e1 != 0) != (e2 != 0)) { ctx.fail(V + ":error-status", fmt("migrate() returns %d with the masked grid and %d with the grid holding TEST instead", e1, e2)); return; }
+    if (e1 != 0) { ctx.label("both-refused"); return; }
+    Cols c1 = newCols(sT, t1.get()), c2 = newCols(sT2, t2.get());
+    if (c1.size() != 1 || c2.size() != 1) { ctx.fail(V + ":columns", fmt("%d / %d new columns", (int)c1.size(), (int)c2.size())); return; }
+    int nDef = 0;
+    for (int t = 0; t < d.n(); t++)
+    {
+      double a = c1[0].second[(size_t)t], b = c2[0].second[(size_t)t];
+      if (!d.active(t))
+      {
+        if (!na(a)) { ctx.fail(V + ":masked-target-written", fmt("masked target %d holds %.12g in the new column", t, a)); return; }
+        continue;
+      }
+      if (!na(a)) nDef++;
+      if (!(a == b || (na(a) && na(b)) || same(a, b, 40.)))
+      {
+        ctx.fail(V + ":value", fmt("target %d: %.12g from the grid with masked cells, %.12g when these cells hold TEST instead", t, a, b));
+        return;
+      }
+    }
+    ctx.nontrivial(nDef > 0 && anyMasked);
+  }
+}
+VERIF_SUB(migrate, MigC, genMig, runMig);
+
+// ---------------------------------------------------------------------------- PCA / MAF
+struct PcaC
+{
+  DbC d;
+  int maf = 0;
+  double hmin = 0., hmax = 1.;
+  template<class A> void io(A& a) { a("d", d)("maf", maf)("hmin", hmin)("hmax", hmax); }
+};
+static PcaC genPca()
+{
+  PcaC c;
+  DbOpt o;
+  o.nMax = 30;
+  c.d = genDbC(o);
+  if (c.d.nvar < 2)
+  {
+    // PCA needs two variables at least
+    int n = c.d.n();
+    std::vector<double> z((size_t)(2 * n));
+    for (int i = 0; i < n; i++) { z[(size_t)(2 * i)] = c.d.z[(size_t)i]; z[(size_t)(2 * i + 1)] = G::pct(10) ? NA : G::r(-40, 40, 8); }
+    c.d.z = z;
+    c.d.nvar = 2;
+  }
+  c.maf = G::pct(40) ? 1 : 0;
+  c.hmin = 0.;
+  c.hmax = c.d.L * G::pick<double>({0.2, 0.5, 2.});
+  c.d.naCoord.clear(); // the normalisation statistics of PCA / MAF do not read the coordinates
+  return c;
+}
+static void runPca(const PcaC& c, Ctx& ctx)
+{
+  const DbC& d = c.d;
+  resetGlobals(d.ndim);
+  debugHook();
+  // PCA works on the isotopic active samples: a sample with any undefined variable leaves the reduced Db;
+  // the MAF also reads the coordinates
+  bool useCoords = false;
+  labelDb(d, useCoords, 2, ctx);
+  ctx.label(c.maf ? "maf" : "pca");
+  ctx.sig = sigDb(d, useCoords, 2, c.maf);
+  std::string V = std::string(c.maf ? "maf:" : "pca:") + dbMaskKind(d, useCoords, 2);
+  std::vector<int> keep = keptRows(d, useCoords, 2);
+  std::unique_ptr<Db> db1 = buildDb(d);
+  Snap before = snapOf(db1.get());
+  PCA p1, p2;
+  ctx.at(V);
+  auto fit = [&](PCA& p, Db* db) { return c.maf ? p.maf_compute_interval(db, c.hmin, c.hmax) : p.pca_compute(db); };
+  int e1 = fit(p1, db1.get());
+  std::string what;
+  if (!snapUnchanged(before, db1.get(), what)) { ctx.fail(V + ":data-cells", "cells of the Db changed: " + what); return; }
+  if (keep.empty()) { ctx.label("reduced:no-data"); return; }
+  std::unique_ptr<Db> db2 = buildDb(d, &keep);
+  int e2 = fit(p2, db2.get());
+  if ((e1 != 0) != (e2 != 0)) { ctx.fail(V + ":error-status", fmt("returns %d with the masked Db and %d with the reduced Db", e1, e2)); return; }
+  if (e1 != 0) { ctx.label("both-refused"); return; }
+  double zs = dbScale(d);
+  int nv = d.nvar;
+  for (int v = 0; v < nv; v++)
+  {
+    if (!same(p1.getMeans()[v], p2.getMeans()[v], zs)) { ctx.fail(V + ":mean", fmt("mean %d: %.15g with the masked Db, %.15g with the reduced Db", v, p1.getMeans()[v], p2.getMeans()[v])); return; }
+    if (!same(p1.getSigmas()[v], p2.getSigmas()[v], zs, 1e-9)) { ctx.fail(V + ":sigma", fmt("sigma %d: %.15g with the masked Db, %.15g with the reduced Db", v, p1.getSigmas()[v], p2.getSigmas()[v])); return; }
+  }
+  // eigenvalues of a symmetric matrix are perfectly conditioned: absolute error ~ eps * ||C||.  The inputs are
+  // the same sums in the same order, so the matrices are expected to be equal to the last bit.
+  double lmax = 0;
+  for (int v = 0; v < nv; v++) lmax = std::max(lmax, std::fabs(p2.getEigVals()[v]));
+  for (int v = 0; v < nv; v++)
+    if (!same(p1.getEigVals()[v], p2.getEigVals()[v], lmax, 1e-9) && std::fabs(p1.getEigVals()[v] - p2.getEigVals()[v]) > 1e-9 * lmax)
+    {
+      ctx.fail(V + ":eigenvalue", fmt("eigenvalue %d: %.15g with the masked Db, %.15g with the reduced Db", v, p1.getEigVals()[v], p2.getEigVals()[v]));
+      return;
+    }
+  for (int i = 0; i < nv; i++)
+    for (int j = 0; j < nv; j++)
+      if (!same(p1.getC0().getValue(i, j), p2.getC0().getValue(i, j), 1., 1e-9))
+      {
+        ctx.fail(V + ":c0", fmt("C0(%d,%d): %.15g with the masked Db, %.15g with the reduced Db", i, j, p1.getC0().getValue(i, j), p2.getC0().getValue(i, j)));
+        return;
+      }
+  ctx.nontrivial((int)keep.size() < d.n() && (int)keep.size() >= 2);
+}
+VERIF_SUB(pca, PcaC, genPca, runPca);
+
+// ---------------------------------------------------------------------------- anamorphosis
+struct AnamC
+{
+  DbC d;
+  int kind = 0;  // 0 Hermite, 1 empirical
+  int nbpoly = 10, ndisc = 20;
+  int byName = 0;
+  template<class A> void io(A& a) { a("d", d)("kind", kind)("nbpoly", nbpoly)("ndisc", ndisc)("byName", byName); }
+};
+static AnamC genAnam()
+{
+  AnamC c;
+  DbOpt o;
+  o.nMax = 40;
+  o.nvarMax = 1;
+  o.naCoordPct = 0;
+  o.weightPct = 30;
+  c.d = genDbC(o);
+  // pairwise distinct values whatever the shrinking does (a constant variable is another matter: C18)
+  for (int i = 0; i < c.d.n(); i++)
+    if (!na(c.d.z[(size_t)i])) c.d.z[(size_t)i] += 0.03125 * i;
+  c.kind = G::pct(70) ? 0 : 1;
+  c.nbpoly = G::i(3, 20);
+  c.ndisc = G::i(5, 40);
+  c.byName = G::b() ? 1 : 0;
+  return c;
+}
+static void runAnam(const AnamC& c, Ctx& ctx)
+{
+  const DbC& d = c.d;
+  resetGlobals(d.ndim);
+  debugHook();
+  labelDb(d, false, 1, ctx);
+  ctx.label(c.kind ? "anam:empirical" : "anam:hermite");
+  ctx.sig = sigDb(d, false, 1, c.kind * 2 + c.byName);
+  std::string V = std::string(c.kind ? "anam-empirical:" : "anam-hermite:") + dbMaskKind(d, false, 1);
+  std::vector<int> keep = keptRows(d, false, 1);
+  std::unique_ptr<Db> db1 = buildDb(d);
+  Snap before = snapOf(db1.get());
+  auto mk = [&]() -> std::unique_ptr<AAnam> {
+    if (c.kind == 0) return std::unique_ptr<AAnam>(new AnamHermite(c.nbpoly));
+    return std::unique_ptr<AAnam>(new AnamEmpirical(c.ndisc));
+  };
+  std::unique_ptr<AAnam> a1 = mk(), a2 = mk();
+  ctx.at(V);
+  auto fit = [&](AAnam* a, Db* db) { return c.byName ? a->fit(db, "z1") : a->fitFromLocator(db, ELoc::Z); };
+  int e1 = fit(a1.get(), db1.get());
+  std::string what;
+  if (!snapUnchanged(before, db1.get(), what)) { ctx.fail(V + ":data-cells", "cells of the Db changed: " + what); return; }
+  if (keep.empty()) { ctx.label("reduced:no-data"); return; }
+  std::unique_ptr<Db> db2 = buildDb(d, &keep);
+  int e2 = fit(a2.get(), db2.get());
+  if ((e1 != 0) != (e2 != 0)) { ctx.fail(V + ":error-status", fmt("fit returns %d with the masked Db and %d with the reduced Db", e1, e2)); return; }
+  if (e1 != 0) { ctx.label("both-refused"); return; }
+  double zs = dbScale(d);
+  if (c.kind == 0)
+  {
+    VectorDouble p1 = dynamic_cast<AnamHermite*>(a1.get())->getPsiHns(), p2 = dynamic_cast<AnamHermite*>(a2.get())->getPsiHns();
+    if (p1.size() != p2.size()) { ctx.fail(V + ":coefficients", "numbers of Hermite coefficients differ"); return; }
+    for (size_t i = 0; i < p1.size(); i++)
+      if (!same(p1[i], p2[i], zs, 1e-9)) { ctx.fail(V + ":coefficients", fmt("psi[%d] = %.15g with the masked Db, %.15g with the reduced Db", (int)i, p1[i], p2[i])); return; }
+  }
+  else
+  {
+    AnamEmpirical *q1 = dynamic_cast<AnamEmpirical*>(a1.get()), *q2 = dynamic_cast<AnamEmpirical*>(a2.get());
+    VectorDouble z1 = q1->getZDisc(), z2 = q2->getZDisc(), y1 = q1->getYDisc(), y2 = q2->getYDisc();
+    if (z1.size() != z2.size() || y1.size() != y2.size()) { ctx.fail(V + ":coefficients", "numbers of discretisation points differ"); return; }
+    for (size_t i = 0; i < z1.size(); i++)
+      if (!same(z1[i], z2[i], zs, 1e-9) || !same(y1[i], y2[i], 1., 1e-9)) { ctx.fail(V + ":coefficients", fmt("point %d: (y,z) = (%.12g,%.12g) with the masked Db, (%.12g,%.12g) with the reduced Db", (int)i, y1[i], z1[i], y2[i], z2[i])); return; }
+  }
+  // transform: new column, TEST at the masked samples, same values at the kept ones
+  Snap b1 = snapOf(db1.get()), b2 = snapOf(db2.get());
+  int t1 = a1->rawToGaussian(db1.get(), "z1"), t2 = a2->rawToGaussian(db2.get(), "z1");
+  if ((t1 != 0) != (t2 != 0)) { ctx.fail(V + ":transform-status", fmt("rawToGaussian returns %d / %d", t1, t2)); return; }
+  if (t1 == 0)
+  {
+    if (!snapUnchanged(b1, db1.get(), what)) { ctx.fail(V + ":data-cells", "cells of the Db changed: " + what); return; }
+    Cols c1 = newCols(b1, db1.get()), c2 = newCols(b2, db2.get());
+    if (c1.size() != 1 || c2.size() != 1) { ctx.fail(V + ":columns", fmt("%d / %d new columns", (int)c1.size(), (int)c2.size())); return; }
+    for (int i = 0; i < d.n(); i++)
+      if (!d.active(i) && !na(c1[0].second[(size_t)i])) { ctx.fail(V + ":masked-target-written", fmt("masked sample %d holds %.12g in the new column '%s'", i, c1[0].second[(size_t)i], c1[0].first.c_str())); return; }
+    for (size_t q = 0; q < keep.size(); q++)
+      if (!same(c1[0].second[(size_t)keep[q]], c2[0].second[q], 1., 1e-8)) { ctx.fail(V + ":transform", fmt("sample %d: %.12g with the masked Db, %.12g with the reduced Db", keep[q], c1[0].second[(size_t)keep[q]], c2[0].second[q])); return; }
+  }
+  ctx.nontrivial((int)keep.size() < d.n() && keep.size() >= 3);
+}
+VERIF_SUB(anam, AnamC, genAnam, runAnam);
 
 VERIF_MAIN()
